@@ -34,13 +34,6 @@ def c13_multi_do_descendant_parent(stream, case, detail):
     return False
 
 
-def c13_minimal_set_descendant(stream, case, detail):
-    """get_minimal_adjustment_set(X, Y) takes its candidates from the parents of X and of Y in the proper back-door graph; a parent of
-    Y that is a mediator (descendant of X) can be returned. Only this report of this call is claimed."""
-    return stream == "criteria" and isinstance(detail, str) and detail.startswith("get_minimal_adjustment_set(") \
-        and "contains a descendant of the treatment" in detail
-
-
 # ----------------------------------------------------------------------------- C18
 def _sg_closure(assertions, buggy):
     """semi-graphoid closure over frozenset triples; `buggy` reproduces the contraction test of
